@@ -17,6 +17,7 @@ import RpmVerif.Driver.C08
 import RpmVerif.Driver.C11
 import RpmVerif.Driver.C02
 import RpmVerif.Driver.C10
+import RpmVerif.Driver.C09
 /-! Driver: one request per line in (`<op> <args…> => <impl observation>`), one answer per line
 out (`<model observation> | <spec verdict> | <branch label>`).
 Each property contributes `Driver/Cxx.lean` with `ops : List String` and
@@ -42,7 +43,8 @@ def handlers : List (List String × (String → List String → String → Strin
   (C08.ops, C08.handle),
   (C11.ops, C11.handle),
   (C02.ops, C02.handle),
-  (C10.ops, C10.handle)
+  (C10.ops, C10.handle),
+  (C09.ops, C09.handle)
 ]
 
 def dispatch (line : String) : String :=
